@@ -126,8 +126,8 @@ def run(tier, seed, replay=None):
     for goal in ((2,) if tier == "quick" else (1, 2, 3)):
         w = R.world("line4", seed * 10 + goal)
         try:
-            scripted_id_reuse(w, "o", goal)
-            tr = {"events": w.events, "topology": "line4", "seed": seed, "profile": "id-reuse g%d" % goal}
+            gone = K.guarded(w, scripted_id_reuse, w, "o", goal)
+            tr = {"events": w.events, "topology": "line4", "seed": seed, "profile": "id-reuse g%d" % goal, "aborted": gone}
             K.check_escapes(ctx, w, tr, "id-reuse")
             scr.append(tr)
             hdr3 = w.header()
@@ -138,8 +138,8 @@ def run(tier, seed, replay=None):
     for pick in range(4 if tier == "quick" else 8):
         w = R.world("line4", seed * 10 + 50 + pick)
         try:
-            scripted_cross_answer(w, pick)
-            tr = {"events": w.events, "topology": "line4", "seed": seed, "profile": "cross-answer %d" % pick}
+            gone = K.guarded(w, scripted_cross_answer, w, pick)
+            tr = {"events": w.events, "topology": "line4", "seed": seed, "profile": "cross-answer %d" % pick, "aborted": gone}
             K.check_escapes(ctx, w, tr, "cross-answer")
             cross.append(tr)
             hdr4 = w.header()
